@@ -52,3 +52,13 @@ func addrUsesPrivate(v ssa.Value, depth int) bool {
 	}
 	return true
 }
+
+// derivedAddr: the address is computed from a base that was already nil
+// checked (field / element address), or is a variable cell: it is never nil.
+func derivedAddr(v ssa.Value) bool {
+	switch v.(type) {
+	case *ssa.FieldAddr, *ssa.IndexAddr, *ssa.Alloc, *ssa.Global, *ssa.FreeVar:
+		return true
+	}
+	return false
+}
